@@ -81,7 +81,7 @@ type trackedTxn struct {
 	id      types.TransactionID
 	v1      *types.Transaction
 	v2      *types.V2Transaction
-	inputs  []types.Hash256 // non-ephemeral inputs (element ids)
+	inputs  []types.Hash256    // non-ephemeral inputs (element ids)
 	proofAt []types.ChainIndex // chain index elements storage proofs refer to (they are inputs too)
 	parents []types.TransactionID
 	// for classification
